@@ -144,6 +144,22 @@ def gen_purity(rng, sol, apis=('cxx',), variant='exc', nev=10, noise=25):
     for p in ('d', 'ld'):
         for h, s in hs[p]:
             S.append(['init', p, 'cxx', h, s])
+    # non-default parameters on the instances under test: a few scalar parameters (admissible values) and
+    # every vector parameter (new length), so that state an evaluator might corrupt is not the default
+    picker = (sa_chem_param if sol in ('rans_sa', 'fans_sa_transient_free_shear', 'fans_sa_steady_wall_bounded', 'euler_chem_1d')
+              else closed_param if sol in ('sod_1d', 'cp_normal') else admissible_param
+              if (sol.startswith('heateq') or sol.startswith('euler') or sol.startswith('navierstokes_2') or sol.startswith('navierstokes_3')
+                  or sol.startswith('axi') or sol in ('laplace_2d', 'burgers_equation', 'navierstokes_4d_compressible_powerlaw')) else around_default)
+    for p in ('d', 'ld'):
+        for h in ('one', 'two')[:2 if p == 'd' else 1]:
+            S.append(['select', p, 'cxx', h])
+            for k in rng.sample(e['pars'], min(3, len(e['pars']))):
+                if sol == 'sod_1d' or k in ('R_N', 'R_N2'):
+                    continue
+                S.append(['setp', p, 'cxx', k, hexf(picker(rng, sol, k))])
+            for k in e['vecs']:
+                n = rng.randint(2, 6)
+                S.append(['setv', p, 'cxx', k, n] + [hexf(exact_double(rng, 0.5, 3.0)) for _ in range(n)])
     cb = [rng.choice(['const', 'arr', 'poly']), hexf(exact_double(rng, 0.5, 2)), hexf(exact_double(rng, 0.1, 0.9)), hexf(exact_double(rng, 0.1, 2))]
     evs = []
     for _ in range(nev):
@@ -309,6 +325,21 @@ def admissible_param(rng, sol, k):
         if k in ('k_0', 'cp_0', 'rho', 'k_1', 'k_2', 'cp_1', 'cp_2'):
             return u(0.3, 2.5)
         return sgn(rng) * u(0.3, 2.5)
+    if sol == 'navierstokes_4d_compressible_powerlaw':
+        # every one of the ~200 parameters non-zero; rho and T positive (constant part dominates)
+        if k in ('Lx', 'Ly', 'Lz', 'R', 'T_r', 'mu_r', 'gamma', 'beta'):
+            return {'gamma': u(1.2, 1.7), 'beta': u(0.3, 1.2)}.get(k, u(0.5, 3.0))
+        if k in ('kappa_r', 'lambda_r'):
+            return sgn(rng) * u(0.05, 0.5)
+        if k in ('a_rho0', 'a_T0'):
+            return u(2.0, 3.0)
+        if k in ('f_rho0', 'f_T0', 'g_rho0', 'g_T0'):
+            return sgn(rng) * u(0.05, 0.2)          # keep cos(f t + g) near 1 for t in [0, 2]
+        if k.startswith('a_rho') or k.startswith('a_T'):
+            return sgn(rng) * u(0.02, 0.12)
+        if k.startswith('a_'):
+            return sgn(rng) * u(0.1, 0.6)
+        return sgn(rng) * u(0.3, 2.0)
     if k in ('L', 'Lx', 'Ly'):
         return u(0.5, 3.0)
     if k == 'Gamma':
@@ -330,8 +361,77 @@ def admissible_param(rng, sol, k):
     return sgn(rng) * u(0.1, 0.6)
 
 
+DEFAULTS = {}
+
+
+def defaults(sol):
+    """default parameter values of a solution (double), read from the library once; used only to draw
+    admissible inputs around physically meaningful values"""
+    if not DEFAULTS:
+        exe = mk.build_driver('exc')
+        wd = workdir('defaults')
+        execs = [Execution([['init', 'd', 'cxx', 'h', n]] + [['getp', 'd', 'cxx', k] for k in CAT[n]['pars']], label=n) for n in NONFIX]
+        run_executions(execs, wd)
+        for e in execs:
+            DEFAULTS[e.label] = {ev['k']: float.fromhex(ev['ret']) for ev in e.events if ev.get('op') == 'getp' and 'ret' in ev}
+        shutil.rmtree(wd, ignore_errors=True)
+    return DEFAULTS[sol]
+
+
+def around_default(rng, sol, k, spread=0.2, zero=(0.05, 0.3)):
+    d = defaults(sol).get(k, 1.0)
+    if d == 0.0:
+        return sgn(rng) * exact_double(rng, *zero)
+    f = exact_double(rng, 1.0 - spread, 1.0 + spread)
+    return float(d) * f
+
+
+def sa_chem_param(rng, sol, k):
+    if sol == 'rans_sa' and k == 're_tau':
+        return exact_double(rng, 50, 2000)
+    if sol == 'fans_sa_transient_free_shear':
+        if k in ('u_t', 'v_t'):
+            return sgn(rng) * exact_double(rng, 0.2, 1.0)
+        if k == 'rho_t':
+            return sgn(rng) * exact_double(rng, 0.02, 0.1)
+        if k == 'p_t':
+            return sgn(rng) * exact_double(rng, 2, 20)
+        if k == 'nu_sa_t':
+            return sgn(rng) * exact_double(rng, 0.01, 0.04)
+        if k in ('a_ut', 'a_vt', 'a_pt', 'a_rhot', 'a_nusat'):
+            return exact_double(rng, 0.3, 2.5)
+        if k in ('nu_sa_x', 'nu_sa_y'):
+            return sgn(rng) * exact_double(rng, 0.02, 0.06)
+        if k == 'mu':
+            return exact_double(rng, 0.001, 0.1)
+        if k in ('v_0', 'v_x'):
+            return sgn(rng) * exact_double(rng, 0.2, 2.0)
+    return around_default(rng, sol, k)
+
+
+def closed_param(rng, sol, k):
+    u = lambda lo, hi: exact_double(rng, lo, hi)
+    if sol == 'sod_1d':
+        return u(1.2, 2.5)            # Gamma; mu is set consistently by gen_values
+    if k == 'm':
+        return sgn(rng) * u(0.5, 3.0)
+    if k in ('sigma', 'sigma_d'):
+        return u(0.5, 2.5)
+    return sgn(rng) * u(0.5, 3.0)
+
+
 def value_point(rng, sol, sig):
     n = sig.count('S')
+    if sol == 'rans_sa':
+        return [hexf(exact_double(rng, 0.05, 0.95))]
+    if sol == 'fans_sa_steady_wall_bounded':
+        return [hexf(exact_double(rng, 0.2, 2.0)) for _ in range(n)]
+    if sol == 'euler_chem_1d':
+        return [hexf(exact_double(rng, 0.0, 8.0))]
+    if sol == 'sod_1d':
+        return [hexf(exact_double(rng, -1.5, 1.5)), hexf(exact_double(rng, 0.25, 1.0))][:n]
+    if sol == 'cp_normal':
+        return [hexf(exact_double(rng, -3.0, 3.0)) for _ in range(n)]
     axi = sol.startswith('axi')
     pt = []
     for i in range(n):
@@ -355,16 +455,110 @@ def gen_values(rng, sol, precs=('d', 'ld'), nassign=2, npts=3, evaluators=None, 
     for p in precs:
         S.append(['init', p, 'cxx', 'val', sol])
     for _ in range(nassign):
-        vals = {k: (setter or admissible_param)(rng, sol, k) for k in e['pars']}
+        pick = setter or (sa_chem_param if sol in ('rans_sa', 'fans_sa_transient_free_shear', 'fans_sa_steady_wall_bounded', 'euler_chem_1d')
+                          else closed_param if sol in ('sod_1d', 'cp_normal') else admissible_param)
+        vals = {k: pick(rng, sol, k) for k in e['pars']}
+        if sol == 'euler_chem_1d':
+            vals['R_N2'] = vals['R_N'] / 2.0          # the two-species model has R_N2 = R_N/2 (DESIGN.md 4.5)
+        data = None
+        if sol == 'cp_normal':
+            data = [exact_double(rng, -3.0, 3.0) for _ in range(rng.randint(1, 8))]
+        cbk = [rng.choice(['const', 'arr', 'poly']), hexf(exact_double(rng, 0.5, 2.0)), hexf(exact_double(rng, 0.1, 0.9)), hexf(exact_double(rng, 0.1, 2.0))]
         pts = []
         for _ in range(npts):
             order = list(caps); rng.shuffle(order)
             for fn, sig in order:
                 dis = [rng.randint(-1, e['dim'] + 2)] if 'I' in sig else [None]
+                if sol == 'cp_normal' and 'I' in sig:
+                    dis = [rng.randint(0, 20)]
                 pts.append((fn, sig, value_point(rng, sol, sig), dis[0]))
         for p in precs:
             for k in e['pars']:
                 S.append(['setp', p, 'cxx', k, hexf(vals[k])])
+            if sol == 'sod_1d':
+                # mu = (Gamma-1)/(Gamma+1), correctly rounded in the precision at hand (30-digit decimal literal)
+                from decimal import Decimal, getcontext
+                getcontext().prec = 40
+                gm = Decimal(vals['Gamma'])
+                S.append(['setp', p, 'cxx', 'mu', str((gm - 1) / (gm + 1))])
+            if data is not None:
+                S.append(['setv', p, 'cxx', 'vec_data', len(data)] + [hexf(v) for v in data])
             for fn, sig, pt, di in pts:
-                S.append(eval_line(p, 'cxx', fn, sig, pt, di))
+                S.append(eval_line(p, 'cxx', fn, sig, pt, di, cbk))
     return Execution(S, variant=variant, label='values:%s' % sol)
+
+
+# ------------------------------------------------------------------------------------------------
+# C20: nested-model reductions -- two handles in one process, paired evaluations
+# ------------------------------------------------------------------------------------------------
+EQ_NAMES = {'rho': ('source_rho',), 'mx': ('source_rho_u', 'source_u'), 'my': ('source_rho_v', 'source_v'),
+            'mz': ('source_rho_w', 'source_w'), 'e': ('source_rho_e', 'source_e'), 't': ('source_t',)}
+
+
+def eq_eval(sol, eq, nargs):
+    for fn, sig in map(tuple, CAT[sol]['caps']):
+        if fn in EQ_NAMES[eq] and sig == 'S' * nargs:
+            return fn, sig
+    return None
+
+
+def reductions():
+    R = []
+    zs3 = lambda f: [f + '_z']
+    z_amp = ['rho_z', 'u_z', 'v_z', 'p_z', 'w_0', 'w_x', 'w_y', 'w_z']
+    R.append(('euler_3d', 'euler_2d', z_amp, ['rho', 'mx', 'my', 'e'], 'z'))
+    R.append(('navierstokes_3d_compressible', 'navierstokes_2d_compressible', z_amp, ['rho', 'mx', 'my', 'e'], 'z'))
+    R.append(('navierstokes_2d_compressible', 'euler_2d', ['mu', 'k'], ['rho', 'mx', 'my', 'e'], None))
+    R.append(('navierstokes_3d_compressible', 'euler_3d', ['mu', 'k'], ['rho', 'mx', 'my', 'mz', 'e'], None))
+    t1 = ['rho_t', 'u_t', 'p_t']
+    R.append(('euler_transient_1d', 'euler_1d', t1, ['rho', 'mx', 'e'], 't'))
+    R.append(('euler_transient_2d', 'euler_2d', t1 + ['v_t'], ['rho', 'mx', 'my', 'e'], 't'))
+    R.append(('euler_transient_3d', 'euler_3d', t1 + ['v_t', 'w_t'], ['rho', 'mx', 'my', 'mz', 'e'], 't'))
+    for d in '123':
+        for kind in ('const', 'var'):
+            R.append(('heateq_%sd_unsteady_%s' % (d, kind), 'heateq_%sd_steady_%s' % (d, kind), ['A_t', 'B_t', 'C_t', 'D_t'], ['t'], 't'))
+        R.append(('heateq_%sd_steady_var' % d, 'heateq_%sd_steady_const' % d, ['k_1', 'k_2'], ['t'], None))
+        R.append(('heateq_%sd_unsteady_var' % d, 'heateq_%sd_unsteady_const' % d, ['k_1', 'k_2', 'cp_1', 'cp_2'], ['t'], None))
+    return R
+
+
+def gen_reduction(rng, big, small, zero, eqs, extra, npts=3, nassign=2, variant='exc'):
+    """big: the richer solution, with the parameters in `zero` set to 0; small: the solution it must reduce to.
+    extra: 'z' / 't': the big solution takes one more coordinate (any value), None: same arguments."""
+    S = []
+    for p in ('d', 'ld'):
+        S.append(['init', p, 'cxx', 'big', big]); S.append(['init', p, 'cxx', 'small', small])
+    lab = 0
+    for _ in range(nassign):
+        shared = {}
+        for k in CAT[big]['pars']:
+            shared[k] = 0.0 if k in zero else admissible_param(rng, big, k)
+        for k in CAT[small]['pars']:
+            if k not in shared:
+                shared[k] = admissible_param(rng, small, k)
+        nsmall = CAT[small]['dim'] + (1 if 'unsteady' in small else 0)
+        pts = []
+        for _ in range(npts):
+            base = [exact_double(rng, -2.0, 2.0) for _ in range(nsmall)]
+            ext = exact_double(rng, 0.0, 2.0)
+            pts.append((base, ext))
+        for p in ('d', 'ld'):
+            for h, sol in (('big', big), ('small', small)):
+                S.append(['select', p, 'cxx', h])
+                for k in CAT[sol]['pars']:
+                    S.append(['setp', p, 'cxx', k, hexf(shared[k])])
+            for base, ext in pts:
+                for eq in eqs:
+                    nb = nsmall + (1 if extra else 0)
+                    eb, es = eq_eval(big, eq, nb), eq_eval(small, eq, nsmall)
+                    if not eb or not es:
+                        continue
+                    lab += 1
+                    bargs = base + [ext] if extra else base
+                    if extra == 'z' or extra is None or extra == 't':
+                        pass
+                    S.append(['select', p, 'cxx', 'big'])
+                    S.append(eval_line(p, 'cxx', eb[0], eb[1], [hexf(v) for v in bargs]) + ['pair:r%d' % lab])
+                    S.append(['select', p, 'cxx', 'small'])
+                    S.append(eval_line(p, 'cxx', es[0], es[1], [hexf(v) for v in base]) + ['pair:r%d' % lab])
+    return Execution(S, variant=variant, label='reduction:%s->%s' % (big, small))
